@@ -369,6 +369,19 @@ class Effects:
         if k in ("break", "continue"):
             raise Unrecognised("`%s` inside an analysed region" % k, n.get("sp"))
         if k == "mcall":
+            cls = [H.peel(a) for a in n["args"] if H.peel(a).get("k") == "closure"]
+            if len(cls) == 1 and len(n["args"]) == 1 and n["name"] in ("map", "for_each", "try_for_each", "filter_map", "map_while", "flat_map") \
+                    and not (H.peel(n["recv"]).get("ty") or "").lstrip("&").startswith(("core::option::Option<", "core::result::Result<")) \
+                    and any(x.get("k") == "path" and x["res"].get("r") == "local" and x["res"]["id"] in self.reader_ids for x in H.walk(cls[0]["body"])):
+                # `<iterator>.map(|x| <reads>)` (consumed by the collect / `?` that follows) == `for x in <iterator> { <reads> }`
+                pre = self.seq([n["recv"]])
+                body = self.paths(cls[0]["body"])
+                if not any(t for t, _l in body):
+                    return pre
+                self.loops.append((n, body))
+                self.loop_ctx.append((self.root, set(self.reader_ids)))
+                tok = ("loop", len(self.loops) - 1)
+                return [(t + (tok,) if l is True else t, l) for t, l in pre]
             ps = self.seq([n["recv"]] + n["args"])
             tok = None
             if self.is_reader(n["recv"]):
